@@ -701,4 +701,13 @@ impl<Db: Database> StorageManager<Db> {
     ) -> Option<ValueState> {
         Self::compare_db_and_transaction_records(state_epoch, transaction_value, flag)
     }
+
+    /// Verification hook: exposes the private `compare_db_version_and_transaction_record`.
+    pub(crate) fn verif_compare_db_version_and_transaction_record(
+        state_version: u64,
+        transaction_value: ValueState,
+        flag: ValueStateRetrievalFlag,
+    ) -> Option<ValueState> {
+        Self::compare_db_version_and_transaction_record(state_version, transaction_value, flag)
+    }
 }
